@@ -215,7 +215,6 @@ Proof.
   pose proof (us_choice_ok c) as Hok. destruct (us_choice c) as [sn si]. intros [= <-].
   apply unfold_special_eq; [|exact Hok]. intros ->. discriminate.
 Qed.
-Set Default Timeout 60.
 
 (* ================================================================ unfold_neg_zero *)
 Lemma rf_round_sign x max_p min_n rm y f :
